@@ -156,6 +156,7 @@ def _run_shard(args):
     acc.extra['shard_s'] += time.time() - t0
     for v in acc.viol:
         v.setdefault('shard', shard)
+    acc._classify = None          # closures do not pickle; classification is done
     return acc
 
 
